@@ -173,15 +173,26 @@ Definition ev_matches (m : sem_req) (e : sevent) : bool :=
   eqb_bytes (r_method m) (e_method e) && eqb_bytes (r_target m) (e_url e) &&
   (e_cl e =? (if r_chunked m then -1 else Z.of_nat (length (r_body m)))) && e_attr e.
 
+Definition req_head_matches (m : sem_req) (q : sreq) : bool :=
+  eqb_bytes (r_method m) (q_method q) && eqb_bytes (r_target m) (q_target q) && eqb_bytes (r_host m) (q_host q) &&
+  Bool.eqb (r_chunked m) (q_chunked q) && eqb_headers (r_headers m) (q_headers q).
+
 Definition agrees (c : case) : bool :=
-  let '(s, _) := model_run c in
+  let '(s, e) := model_run c in
   let fwd := rev (s_fwd s) in
-  all2 req_matches fwd (h_breqs c) &&
+  let n := length fwd in
   all2 resp_matches (rev (s_del s)) (h_cresps c) &&
   Bool.eqb (s_broken s) (h_cgarbage c) &&
-  negb (h_bgarbage c) &&
-  (h_bconns c =? (match fwd with [] => 0 | _ => 1 end))%N &&
-  all2 ev_matches fwd (h_events c).
+  all2 ev_matches fwd (h_events c) &&
+  match partial_forward s e with
+  | None =>
+      all2 req_matches fwd (h_breqs c) && negb (h_bgarbage c) &&
+      (h_bconns c =? (match fwd with [] => 0 | _ => 1 end))%N
+  | Some m =>
+      (* the header block of a request whose body never completed went out as well *)
+      all2 req_matches fwd (firstn n (h_breqs c)) &&
+      all2 req_head_matches [m] (skipn n (h_breqs c)) && h_bgarbage c && (h_bconns c =? 1)%N
+  end.
 
 Definition mismatches (cs : list case) : list N := map h_id (filter (fun c => negb (agrees c)) cs).
 
@@ -199,6 +210,11 @@ Definition SIG_EVENT := 9%N.                 (* not exactly one attributed event
 Definition SIG_BACKEND_GARBAGE := 10%N.
 Definition SIG_PEERS := 11%N.
 Definition SIG_UNREQUESTED := 12%N.          (* the backend received a request the client did not send *)
+Definition SIG_CC_ADDED := 13%N.             (* "Cache-Control: no-cache" added to a message that only had "Pragma: no-cache" *)
+
+Definition added_sigs (hs : list header) : list N :=
+  (if eqb_headers (ua_fix hs) hs then [] else [SIG_UA_ADDED]) ++
+  (if eqb_headers (pragma_fix hs) hs then [] else [SIG_CC_ADDED]).
 
 (* the well-formed requests the client sends: a message that frames exactly as itself *)
 Definition intended_req (msg : bytes) : option sem_req :=
@@ -244,18 +260,21 @@ Definition default_resp : bytes := match DEFAULT_REPLY with x :: _ => x | [] => 
 
 (* walk the intended requests against the observations; [stray] = an earlier intended
    exchange was HEAD with a chunked reply *)
-Fixpoint walk (ls : bool) (reqs : list sem_req) (reps : list (bytes * list N))
+Fixpoint walk (ls wf : bool) (reqs : list sem_req) (reps : list (bytes * list N))
               (breqs : list sreq) (cresps : list sresp) (stray : bool) : list N :=
   match reqs with
-  | [] => match breqs with [] => [] | _ => [SIG_UNREQUESTED] end
+  | [] => match breqs with
+          | [] => []
+          | _ => if wf then [if ls then SIG_UNREQUESTED else SIG_PIPELINED_LOST] else []   (* after a malformed message: no requirement *)
+          end
   | m :: reqs' =>
       match breqs with
       | [] => [if ls then (if stray then SIG_STRAY_AFTER_HEAD else SIG_REQUEST_LOST) else SIG_PIPELINED_LOST]
       | q :: breqs' =>
           let s1 :=
             if req_matches (spec_headers m) q then []
-            else if req_matches (reser_req m) q then [SIG_UA_ADDED]
-            else [SIG_REQUEST_CHANGED] in
+            else if req_matches (reser_req m) q then added_sigs (r_headers m)
+            else [if ls then SIG_REQUEST_CHANGED else SIG_PIPELINED_LOST] in   (* a reader that starts inside a pipelined request forwards a mangled one *)
           let raw := match reps with r :: _ => fst r | [] => default_resp end in
           match intended_reply (is_head m) raw with
           | None => s1                                   (* the backend's reply is itself not a reply: no requirement *)
@@ -265,8 +284,10 @@ Fixpoint walk (ls : bool) (reqs : list sem_req) (reps : list (bytes * list N))
               | [] => s1 ++ [if stray then SIG_STRAY_AFTER_HEAD else SIG_REPLY_LOST]
               | a :: cresps' =>
                   s1 ++ (if resp_matches (mkResp (p_status p) (sort_headers (p_headers p)) (p_chunked p) (p_body p)) a
-                         then [] else [SIG_REPLY_CHANGED])
-                     ++ walk ls reqs' (tl reps) breqs' cresps' stray'
+                         then []
+                         else if resp_matches (reser_resp p) a then [SIG_CC_ADDED]
+                         else [SIG_REPLY_CHANGED])
+                     ++ walk ls wf reqs' (tl reps) breqs' cresps' stray'
               end
           end
       end
@@ -291,10 +312,13 @@ Definition ev_ok (q : sreq) (e : sevent) : bool :=
 
 Definition case_sigs (c : case) : list N :=
   let reqs := intended_prefix (h_msgs c) in
-  walk (lockstep c) reqs (h_replies c) (h_breqs c) (h_cresps c) false
+  let wf := (length reqs =? length (h_msgs c))%nat in
+  walk (lockstep c) wf reqs (h_replies c) (h_breqs c) (h_cresps c) false
   ++ (if h_cgarbage c then [if any_stray reqs (h_replies c) then SIG_STRAY_AFTER_HEAD else SIG_CLIENT_GARBAGE] else [])
-  ++ (if all2 ev_ok (h_breqs c) (h_events c) then [] else [SIG_EVENT])
-  ++ (if h_bgarbage c then [SIG_BACKEND_GARBAGE] else [])
+  ++ (if all2 ev_ok (firstn (length (h_events c)) (h_breqs c)) (h_events c) &&
+         ((length (h_events c) =? length (h_breqs c))%nat || (h_bgarbage c && (S (length (h_events c)) =? length (h_breqs c))%nat))
+      then [] else [SIG_EVENT])       (* a request cut short by the client is not recorded *)
+  ++ (if h_bgarbage c && wf then [SIG_BACKEND_GARBAGE] else [])
   ++ (if h_bpeers c && (h_bconns c <=? 1)%N then [] else [SIG_PEERS]).
 
 Definition violations (cs : list case) : list (N * N) :=
@@ -424,6 +448,13 @@ Fixpoint eqb_list {A} (f : A -> A -> bool) (a b : list A) : bool :=
   | _, _ => false
   end.
 
+Fixpoint prefix_list {A} (f : A -> A -> bool) (a b : list A) : bool :=
+  match a, b with
+  | [], _ => true
+  | x :: a', y :: b' => f x y && prefix_list f a' b'
+  | _ :: _, [] => false
+  end.
+
 Definition attempts (c : case) : list cred := map (fun p => (z_user c, p)) (z_passwords c).
 Definition accepts (c : case) (x : cred) : bool := eqb_bytes (snd x) (z_accept c).
 
@@ -447,7 +478,7 @@ Definition agrees (c : case) : bool :=
     let relayed := ssh_relay (client_msgs c) [] in
     eqb_list eqb_smsg (reqs_of relayed) (o_breqs c) && eqb_bytes (data_of relayed) (o_bdata c) &&
     is_prefix (o_cdata c) (concat (z_reply c)) &&            (* = relay_until_close for some schedule *)
-    eqb_list Bool.eqb (want_replies (z_reqs c)) (o_replies c) &&
+    prefix_list Bool.eqb (o_replies c) (want_replies (z_reqs c)) &&   (* an early close also cuts the replies short *)
     eqb_list eqb_bytes (req_types (z_reqs c)) (o_evreqs c) && (o_evchan c =? 1)%N && (o_evsess c =? 1)%N &&
     (if z_texty c && eqb_bytes (o_cdata c) (concat (z_reply c)) then eqb_bytes (o_rec c) (sanitize (concat (z_reply c))) else true)
   else
@@ -485,7 +516,8 @@ Definition case_sigs (c : case) : list N :=
         ++ (if eqb_bytes (concat (z_data c)) (o_bdata c) then [] else [SIG_UP])
         ++ (if eqb_bytes (o_cdata c) (concat (z_reply c)) then []
             else if is_prefix (o_cdata c) (concat (z_reply c)) then [SIG_TRUNCATED] else [SIG_DOWN])
-        ++ (if eqb_list Bool.eqb (want_replies (z_reqs c)) (o_replies c) then [] else [SIG_STATUS])
+        ++ (if eqb_list Bool.eqb (want_replies (z_reqs c)) (o_replies c) then []
+            else if prefix_list Bool.eqb (o_replies c) (want_replies (z_reqs c)) then [SIG_TRUNCATED] else [SIG_STATUS])
         ++ (if eqb_list eqb_bytes (req_types (o_breqs c)) (o_evreqs c) && (o_evchan c =? 1)%N && (o_evsess c =? 1)%N
             then [] else [SIG_EVENT])
       else []).
